@@ -199,3 +199,11 @@ func (c *Conn) WaitWritten(n int, timeout time.Duration) bool {
 	defer c.mu.Unlock()
 	return len(c.out) >= n
 }
+
+// IsDrained reports (without waiting) whether every fed byte has been read and
+// a reader is parked in Read again.
+func (c *Conn) IsDrained() bool {
+	c.mu.Lock()
+	defer c.mu.Unlock()
+	return len(c.in) == 0 && c.blocked > 0
+}
